@@ -31,6 +31,9 @@ type Conn struct {
 	handler  netmc.SessionHandler
 	log      []Entry
 	WriteErr error // returned by every write when non-nil (the write is still logged)
+	// OnEntry, when non-nil, is called inside every write (after it was logged, outside the connection's
+	// own lock): lets a harness do something while the proxy is in the middle of a write.
+	OnEntry func(Entry)
 }
 
 func New(st *state.Registry, p proto.Protocol) *Conn {
@@ -53,9 +56,13 @@ func (c *Conn) Log(from int) []Entry {
 func (c *Conn) Len() int { c.mu.Lock(); defer c.mu.Unlock(); return len(c.log) }
 func (c *Conn) add(e Entry) error {
 	c.mu.Lock()
-	defer c.mu.Unlock()
 	c.log = append(c.log, e)
-	return c.WriteErr
+	err, hook := c.WriteErr, c.OnEntry
+	c.mu.Unlock()
+	if hook != nil {
+		hook(e)
+	}
+	return err
 }
 
 // SetClosed cancels (true) or renews (false) the connection context.
